@@ -40,8 +40,11 @@ var registry = map[string]entry{
 	"C31": {"exploration", props.C31},
 	"C32": {"exploration", props.C32},
 	"C33": {"exploration", props.C33},
+	"C34": {"exploration", props.C34},
+	"C35": {"exploration", props.C35},
 	"C36": {"exploration", props.C36},
 	"C37": {"exploration", props.C37},
+	"C38": {"exploration", props.C38},
 	"C28": {"exploration", props.C28},
 	"C20": {"exploration", comp.C20},
 	"C21": {"exploration", comp.C21},
@@ -89,6 +92,9 @@ func main() {
 func dispatchChild(id string, args []string) bool {
 	if len(args) >= 2 && args[0] == "--child-ro" {
 		os.Exit(props.ChildRO(args[1]))
+	}
+	if len(args) >= 1 && args[0] == "--child-lock" {
+		os.Exit(props.ChildLock())
 	}
 	if len(args) >= 2 && args[0] == "--child-inmem" {
 		var seed int64
